@@ -628,18 +628,19 @@ impl AssemblyCode {
                             flags = FlagsState::Y;
                         }
                         AsmMnemonic::DEC | AsmMnemonic::INC => {
+                            // Memory is modified: like a store, under whatever spelling (arr+2 / arr,X) it is known
                             if let Some(v) = &accumulator {
-                                if v.eq(&inst.dasm_operand) {
+                                if !v.starts_with("#") {
                                     accumulator = None;
                                 }
                             }
                             if let Some(v) = &x_register {
-                                if v.eq(&inst.dasm_operand) {
+                                if !v.starts_with("#") {
                                     x_register = None;
                                 }
                             }
                             if let Some(v) = &y_register {
-                                if v.eq(&inst.dasm_operand) {
+                                if !v.starts_with("#") {
                                     y_register = None;
                                 }
                             }
@@ -730,16 +731,18 @@ impl AssemblyCode {
                         | AsmMnemonic::AND
                         | AsmMnemonic::ORA => accumulator = None,
                         AsmMnemonic::LSR | AsmMnemonic::ASL | AsmMnemonic::ROL | AsmMnemonic::ROR => {
-                            // The accumulator or the memory operand is modified
+                            // The accumulator or the memory operand (under whatever spelling) is modified
                             accumulator = None;
-                            if let Some(v) = &x_register {
-                                if v.eq(&inst.dasm_operand) {
-                                    x_register = None;
+                            if !inst.dasm_operand.is_empty() {
+                                if let Some(v) = &x_register {
+                                    if !v.starts_with("#") {
+                                        x_register = None;
+                                    }
                                 }
-                            }
-                            if let Some(v) = &y_register {
-                                if v.eq(&inst.dasm_operand) {
-                                    y_register = None;
+                                if let Some(v) = &y_register {
+                                    if !v.starts_with("#") {
+                                        y_register = None;
+                                    }
                                 }
                             }
                             flags = FlagsState::Unknown;
